@@ -39,6 +39,8 @@ def steps_c13(rng, nsteps, nthreads):
             ops += ["enter"] * 3 + ["drop", "event_of", "event_root", "record"]
         if any(ent.values()):
             ops += ["exit"] * 3
+            if live and any(ent[x] and ent[x][-1] == max(live) for x in ent):
+                ops += ["close_in_exit"] * 2
         op = rng.choice(ops)
         lvl, tgt = rng.randint(1, 5), rng.choice(["a", "b"])
         n = len(out)
@@ -86,6 +88,15 @@ def steps_c13(rng, nsteps, nthreads):
             t = rng.choice(ts)
             s = ent[t].pop()  # LIFO keeps every open span's ancestors entered
             out.append({"op": "exit", "t": t, "s": s, "name": live[s]})
+        elif op == "close_in_exit":
+            # the newest span (no children) is entered: its last handle goes while it is entered, so the exit is what closes it -
+            # the lifecycle points `exit` and `close` both fall into that one operation, in this order
+            s = max(live)
+            t = next(x for x in ent if ent[x] and ent[x][-1] == s)
+            out.append({"op": "drop", "t": t, "s": s, "name": live[s], "entered": True})
+            ent[t].pop()
+            out.append({"op": "exit", "t": t, "s": s, "name": live[s], "closing": True})
+            del live[s]
         elif op == "drop":
             cands = [s for s in live if not any(s in ent[x] for x in ent)]
             # only spans without live descendants created under them: keep it simple - drop the newest such span
